@@ -17,8 +17,12 @@ THE SUBSET.
   items       `fn` / `const fn` (free, inherent `impl T`, `impl Trait for T`, trait default methods read at a given
               `Self`), non-generic, by-value / `&self` receivers; `const` / `static` items with integer, bool or
               struct-literal initialisers (evaluated at translation time, `as` wraps, result checked against the
-              declared type); `struct T(int)` and `struct T { one field }` are represented by that field;
-              `struct T { f: int, g: int, … }` by a generated Lean `structure` with `Int` fields; field-less `enum`s by
+              declared type); a `const` whose initialiser calls a `const fn` (`NaiveDate::BEFORE_MIN`) is read as a
+              function without parameters (`def …BEFORE_MIN : Res Int`; compile-time evaluation has the run-time
+              semantics, a panic there would be a compile error); `struct T(int)` and `struct T { one field }` are
+              represented by that field; `struct T { f: A, g: B, … }` by a generated Lean `structure` whose fields
+              have the Lean types of A, B, … (`Int` for integers, newtypes and field-less enums, the generated
+              structure for a nested struct: `NaiveDateTime { date: NaiveDate, time: NaiveTime }`); field-less `enum`s by
               their discriminant (an `Int`); `NonZeroI32` & co. by the underlying integer (`get`, `new_unchecked`
               are the identity); references are erased (all values are `Copy`).
   statements  `let` (with tuple / newtype patterns, shadowing), `let mut` with `=`, `+= -= *= /= %= <<= >>= &= |= ^=`
@@ -33,7 +37,8 @@ THE SUBSET.
               (YEAR_TO_FLAGS, MDL_TO_OL, OL_TO_MDL, YEAR_DELTAS: read from Extracted/Tables.lean), struct literals
               (also with a base, `T { f: e, ..base }`: the fields not listed are read from `base`, which is
               evaluated after the listed fields), field access, calls of translated functions and methods, `Some/None`, `try_opt!(e)` and `e?` on Option,
-              `crate::expect(opt, msg)`, `.unwrap()`, `.is_some()/.is_none()`, `checked_add/sub/mul`,
+              `crate::expect(opt, msg)`, `.unwrap()`, `.unwrap_or(d)` on an Option of an integer-represented
+              type (`opt.getD d`; `d` is evaluated first, as in Rust), `.is_some()/.is_none()`, `checked_add/sub/mul`,
               `div_euclid/rem_euclid`, `abs`, `debug_assert!/assert!(…)`, `debug_assert_eq!/…_ne!`,
               `panic!/unreachable!`.
   refused     everything else, in particular: generics, closures, loops, `&mut`, floats, chars / strings as values,
@@ -72,6 +77,11 @@ SEMANTICS (the build under test: overflow checks and debug assertions ON, 64-bit
   asserts     `debug_assert!(c)` / `assert!(c)`: `if ¬c then .panic else …` (debug assertions are on in the harness).
   expect / unwrap on `None`, `panic!`, `unreachable!`: `.panic`.
   bools       conditions are Lean `Prop`s (`a < b ∧ c`); a bool that is stored, passed or returned is `decide (…)`.
+
+NAMES.  `<module>.<Type>.<fn>` for inherent and free functions, `<module>.<Type>.<Trait>.<fn>` for a method of
+`impl Trait for Type` and for a trait default method read at `Self = Type` (module = the trait's file).  When a local
+variable of the function is called like the module of a callee (`weekday`), the callee is written with its full name
+`Chrono.Gen.<module>.…` (Lean would otherwise read `weekday.Weekday.f` as a projection of the local).
 
 NORMAL FORM of the output: `do`-free, one `def` per function, `let` for Rust `let`s (always with the Lean type),
 `Res.bind (…) fun x =>` for each panicking step (bound to the Rust variable's name when it initialises or updates
